@@ -19,7 +19,7 @@ TECHNIQUE = ("Lean 4 theorems over an executable model of the mutable-file conte
              "Retrieve.decode against the Lean driver; implementation-side monitor against a bytearray; a fixed corpus "
              "(one minimal case per seeded change C09-a..e and per repaired defect) runs first, VERIF_CORPUS_ONLY=1 runs "
              "only that")
-LEVEL_TEXT = ("Proved in Lean for all contents, offsets, lengths, k and segment sizes, both formats (14 theorems, none "
+LEVEL_TEXT = ("Proved in Lean for all contents, offsets, lengths, k and segment sizes, both formats (16 theorems, none "
               "partial): update_is_splice / update_changes_only_written_bytes (an accepted update is "
               "old[:off]+data+old[off+len:], only the written bytes change, length = max), update_past_eof_sdmf, "
               "update_refused (exactly which updates the code refuses), transforming_read_correct and "
@@ -27,15 +27,17 @@ LEVEL_TEXT = ("Proved in Lean for all contents, offsets, lengths, k and segment 
               "segments yields the segments of the splice), boundary_segments_paired (servermap update data -> the two "
               "boundary segments, start first), decode_blocks_is_stored_segment, read_range_slice / read_to_end, "
               "history_refines_bytes and history_reads_refine (after any history the content is the byte-string fold and "
-              "every valid read returns its slice), publish_stores_data, default_max_segment_size_is_128KiB. The model is "
+              "every valid read returns its slice), held_object_refines / held_object_invariant (operations through a reused "
+              "MutableFileVersion object = the node-level operations; reads through it return the current bytes or "
+              "nothing), publish_stores_data, default_max_segment_size_is_128KiB. The model is "
               "tied to the code by comparing every operation outcome (ok/refusal kind, segment size, length) and every "
               "read of seeded histories, and the segment arithmetic at function level.")
 LEVEL_NOTE = ("Lean kernel + standard axioms; the model is a hand transcription tied by correspondence. Correspondence "
               "only (as in the coverage table of Props/C09.lean): every server response ordering (publish/servermap "
               "networking is abstracted; histories run under seeded delivery orders); hash-tree reshaping, FEC, AES and "
               "share layout (grid reads validate the trees and decode real shares); the order of the gathered list in "
-              "ServermapUpdater._got_results (many-segment corpus); reads through a reused version object and the "
-              "refusals of an object overtaken by another one (monitor only). The three C09 defects found here are "
+              "ServermapUpdater._got_results (many-segment corpus); a version object overtaken by a change made through "
+              "another object (monitor only). The three C09 defects found here are "
               "repaired in /repo (b67174d stale node size, 2a6f1c2 SDMF update beyond EOF, 6586d18 second update through "
               "one version object); the model describes the repaired code and the corpus guards each repair.")
 RULE = ("seeded histories create + ≤8 (thorough ≤40) operations (overwrite via node or version, modify with six "
@@ -53,8 +55,9 @@ TRUSTED = ["lean/Tahoe/Mutable/Content.lean is a hand transcription of the funct
            "modelled as (format, segment size, plaintext): stored segment i is content[i*seg:(i+1)*seg]; a fetched block "
            "is represented by the segment it was read from, the decoder by its zero padding (block bytes, FEC, AES, "
            "hashes and salts are abstracted)",
-           "a MutableFileVersion object is modelled as a handle to the node: every operation applies to the node's "
-           "current best version (what the code does for an object that is not overtaken, since 6586d18)",
+           "lean/Tahoe/Mutable/Handle.lean: a reused MutableFileVersion object is modelled as (pinned version, best version "
+           "of its servermap), versions identified by sequence number; update and modify re-pin, overwrite does not; "
+           "tied by the pin/held histories (driver tokens p, hu:, ho:, hm:, hr:)",
            "harness/grid.py (in-process grid: real storage servers, real client, seeded delivery order, virtual clock)"]
 ASSUMPTIONS = ["a publish that reports success has placed the new version on the shares that later reads use (C47/C11)",
                "one writer, no concurrent operations on the node (C12/C13)",
@@ -104,14 +107,14 @@ def apply_modifier(kind, arg, old):
 
 
 def op_token(op):
-    """driver token of an op; None = not sent to the model (`pin`, reads through a held version object).
-    The model has no version objects: every operation applies to the node's current best version, so an
-    operation through a reused (held) MutableFileVersion maps to the same token as through a fresh one."""
+    """driver token of an op.  `pin` -> `p`, an operation through the held MutableFileVersion object -> `h` + the
+    plain token (model: lean/Tahoe/Mutable/Handle.lean; histories in which the object is overtaken by another
+    one are marked `nomodel` and are not sent to the driver at all)."""
     k = op[0]
     if k == "pin":
-        return None
+        return "p"
     if k == "held":
-        return None if op[1][0] == "read" else op_token(op[1])
+        return "h" + op_token(op[1])
     if k == "create":
         return "c:%s:%s" % (op[1], hx(bytes.fromhex(op[2])))
     if k == "overwrite":
@@ -597,15 +600,16 @@ def run_history(ctx, h, count=True):
                             if held:
                                 # a read through the reused object: a MutableFileVersion is one specific version, so it
                                 # may show any content the file has had since the object was obtained, or refuse
-                                skip.add(i)
                                 try:
                                     mc = MemoryConsumer()
                                     rt.wait(held_mv.read(mc, off, size))
                                     got = b"".join(mc.chunks)
                                 except Exception as e:
+                                    outs.append("err:" + {"KeyError": "key"}.get(exc_name(e), exc_name(e)))
                                     if count:
                                         ctx.count("held-read:refused:" + exc_name(e))
                                     continue
+                                outs.append(hx(got))
                                 okc = [x for x in since_pin + [bytes(ref)]
                                        if got == x[off:(len(x) if size is None else off + size)]]
                                 if count:
